@@ -431,6 +431,44 @@ func ruleX3(c *an.Ctx) {
 			}
 		}
 		c.Floor("X3", "Range.Length()==0 test in Fork.disabled", n, 1)
+		// ... and the fork id is examined before ANY "enabled" verdict: a fork that the static enumeration
+		// marked empty has no _disabled sentinel, the zero-length range is the only thing that disables it.
+		// Every path to a return of (false, nil) passes the head of the loop that tests the ranges.
+		var heads []ssa.Instruction
+		for hd, body := range naturalLoops(disabled) {
+			tests := false
+			for b := range body {
+				for _, in := range b.Instrs {
+					if cl, ok := in.(*ssa.Call); ok && cl.Call.IsInvoke() && cl.Call.Method.Name() == "Length" {
+						tests = true
+					}
+				}
+			}
+			if tests {
+				heads = append(heads, hd.Instrs[0])
+			}
+		}
+		if len(heads) > 0 {
+			w := an.Query{Fn: disabled,
+				Target: func(in ssa.Instruction) bool {
+					ret, ok := in.(*ssa.Return)
+					if !ok || len(ret.Results) < 2 {
+						return false
+					}
+					cv, isC := an.RetVal(ret, 0).(*ssa.Const)
+					return isC && cv.Value != nil && cv.Value.String() == "false" && an.IsNil(an.RetVal(ret, 1))
+				},
+				Barrier: func(in ssa.Instruction) bool {
+					for _, h := range heads {
+						if in == h {
+							return true
+						}
+					}
+					return false
+				}}.Find()
+			c.Check("X3", "ranges-examined-before-enabled-verdict@(*Fork).disabled", disabled.Pos(), w == nil,
+				"Fork.disabled can answer (false, nil) without having looked at the ranges of the fork id: a fork for an empty element of a statically known nested collection is then treated as enabled and its job is submitted; "+c.WitnessString(w))
+		}
 	}
 }
 
